@@ -424,15 +424,14 @@ def make_term(
     if coefficient == 1 and exponent is None:
         return varExp
 
-    multExp = MultiplyExpression(constExp, varExp)
     if exponent is None:
-        return multExp
+        return MultiplyExpression(constExp, varExp)
 
     expConstExp = ConstantExpression(exponent)
     if coefficient == 1:
         return PowerExpression(varExp, expConstExp)
 
-    return PowerExpression(multExp, expConstExp)
+    return MultiplyExpression(constExp, PowerExpression(varExp, expConstExp))
 
 
 class TermResult:
